@@ -113,7 +113,7 @@ def r4_ok_wrap(chk):
     from ..tables import IMPL_FILES
 
     def mk():
-        return Evaluator(repo, IMPL_FILES, shallow=True)
+        return Evaluator(repo, IMPL_FILES, opaque={"quote_action", "struct_main_code_block", "enum_main_code_block"})
     t = {}
     for name in ("main_code_block", "main_code_block_ok"):
         fi = repo.fn(EXPAND, name)
@@ -221,24 +221,38 @@ def r6_assign_only(chk):
                 chk.expect("R6", "update-under-into_existing", ".." not in s, EXPAND, tail["fn_line"],
                            "`..update` is spliced after the assignments of an into_existing body (a dangling range expression: it supplies no fields)", found=s[:120])
                 break
+    # `*other = ..` (whole-value overwrite): wherever a template writes it, every evaluation path producing it is a quick-return path
+    # of an into_existing conversion (decided by partial evaluation of the function holding the template, helpers inlined)
+    from ..pe import Evaluator, explore, vkey
+    from ..tables import IMPL_FILES
+    holders = [fi for fi in repo.fns(EXPAND) if any(m["k"] == "Macro" and m["last"] == "quote" and re.search(r"\*\s*other\s*=", m["src"]) for m in walk(fi.body))]
     for name in ("main_code_block", "main_code_block_ok"):
-        fi = repo.fn(EXPAND, name)
-        stars = [n for n in walk(fi.body) if n["k"] == "Macro" and n["last"] == "quote" and n["src"].replace(" ", "").startswith("*other=")]
-        ok = len(stars) == 1
-        from ..panics import enclosing_guards
-        for s_ in stars:
-            gs = [render(g[1]).replace(" ", "") for g in enclosing_guards(fi, s_) if g[0] == "if" and g[2]]
-            ok = ok and any("quick_return" in g for g in gs) and any(g == "ctx.kind.is_into_existing()" for g in gs)
-        chk.expect("R6", f"{name}/overwrite-only-for-return", ok, EXPAND, fi.line, "`*other = ..` outside the quick-return branch clobbers unmapped fields")
-    # no other template anywhere writes `*other`
-    n = 0
-    for fi in repo.fns(EXPAND):
-        if fi.name in ("main_code_block", "main_code_block_ok"):
+        if not any(h.name == name for h in holders):
+            holders.append(repo.fn(EXPAND, name))
+    for fi in holders:
+        key = f"{fi.qual}/overwrite-only-for-return"
+        try:
+            from ..linetables import OPAQUE
+            opq = (set(OPAQUE) | {"quote_action", "struct_main_code_block", "enum_main_code_block"}) - {fi.name, "main_code_block", "main_code_block_ok"}
+            lvs = explore(lambda: Evaluator(repo, IMPL_FILES, opaque=opq), lambda ev: ev.run_fn(fi, ev.sym_params(fi)))
+        except Exception as ex:
+            chk.inconc("R6", f"{key}: not evaluable ({ex!r})"[:200])
             continue
-        for m in walk(fi.body):
-            if m["k"] == "Macro" and m["last"] == "quote" and re.search(r"\*\s*other\s*=", m["src"]):
-                n += 1
-                chk.bad("R6", f"{fi.qual}:*other=", EXPAND, m["line"], "whole-value overwrite of the existing destination", found=m["src"][:60])
+        if any(lf.unsupported or lf.panic for lf in lvs):
+            chk.inconc("R6", f"{key}: not evaluable ({[lf.unsupported or lf.panic for lf in lvs if lf.unsupported or lf.panic][:1]})"[:200])
+            continue
+        bad = []
+        n_over = 0
+        for lf in lvs:
+            v = squash(vkey(lf.value))
+            if "*other=" not in v:
+                continue
+            n_over += 1
+            qr = [val for a, val in lf.decisions.items() if a.endswith("quick_return")]
+            k = lf.get("ctx.kind")
+            if "Some" not in qr or direction(k) != "Existing":
+                bad.append({"kind": k, "quick_return": qr, "value": v[:60]})
+        chk.expect("R6", key, not bad, EXPAND, fi.line, "`*other = ..` outside the quick-return branch of an into_existing conversion clobbers unmapped fields", found=bad[:2], detail={"paths_overwriting": n_over})
 
 
 def r7_chain_symmetry(chk):
